@@ -256,17 +256,26 @@ def run(ctx):
         t = gen_lite(rng, ptype=rng.choice([2, 3, 4]))
         t = t[:-1] + (t[-1][:rep % 2],)
         data = lc.encode(t)
+        if isinstance(data, Exception):
+            ctx.violation("c03:lite:encode-raised", "PRUDP lite: encode raised %r for a well-formed packet" % (data,), {"fields": repr(t)})
+            continue
         for k, cuts in enumerate(partitions_all(len(data))):
             chunk_case([t], b"", split_at(data, cuts), "chunk-all-partitions", model=(k % 97 == 0))
     # (b) short streams (<= 64 bytes): every single cut and every pair of cuts
     for rep in range(12 * scale):
         ts = []
+        def small_ok():
+            # (an encoder that refuses a well-formed packet is reported by the round-trip oracle; here such packets are skipped)
+            for _ in range(200):
+                t = small_lite(6)
+                if not isinstance(lc.encode(t), Exception): return t
+            raise RuntimeError("the lite encoder refuses every small well-formed packet")
         while True:
-            t = small_lite(6)
+            t = small_ok()
             if sum(len(lc.encode(x)) for x in ts) + len(lc.encode(t)) > 64: break
             ts.append(t)
         data = b"".join(lc.encode(t) for t in ts)
-        tailsrc = lc.encode(small_lite(6))
+        tailsrc = lc.encode(small_ok())
         tail = tailsrc[:rng.randrange(len(tailsrc))] if rep % 2 else b""
         stream = data + tail
         for i in range(len(stream) + 1):
